@@ -123,6 +123,11 @@ func (engC15) Gen(r *Rng, s *Script, idx int, tier string) {
 			s.Steps = append(s.Steps, Step{Op: "rowItems", Items: genItems(r, n, level, &ctr)})
 		}
 	}
+	if r.Chance(1, 12) {
+		// one cell far larger than any buffer a renderer might put in front of the writer
+		s.Config["huge_cell"] = 1
+		s.Steps = append(s.Steps, Step{Op: "rowItems", Items: []Item{{K: "s", S: "huge", N: 10000}}})
+	}
 	for i := r.Intn(3); i > 0; i-- {
 		s.Steps = append(s.Steps, Step{Op: "align", A: r.Intn(ncol + 1), B: r.Intn(4)})
 	}
@@ -131,12 +136,19 @@ func (engC15) Gen(r *Rng, s *Script, idx int, tier string) {
 	}
 	// routes: every format at least once, text under several decorations
 	nr := r.Range(6, 10)
+	huge := s.Config["huge_cell"] == 1
+	if huge {
+		nr = 3 // only the renderers that write field by field: the others make thousands of writes for such a cell
+	}
 	for i := 0; i < nr; i++ {
 		f := i % NFormats
 		if i >= NFormats {
 			f = []int{FmtText, FmtText, FmtMD, FmtHTML, FmtJSON, FmtCSV}[r.Intn(6)]
 		}
-		st := Step{Op: "render", A: f, B: r.Intn(NDecoChoices - 1), C: []int{ViaPkg, ViaFresh, ViaFresh, ViaAuto, ViaReused, ViaAutoFn}[r.Intn(6)], D: r.Intn(16), E: r.Range(1, 99)}
+		if huge {
+			f = []int{FmtJSON, FmtCSV, FmtJSON}[i]
+		}
+		st := Step{Op: "render", A: f, B: []int{0, 1, 2, 3, 4, 5, 6, 8}[r.Intn(8)], C: []int{ViaPkg, ViaFresh, ViaFresh, ViaAuto, ViaReused, ViaAutoFn}[r.Intn(6)], D: r.Intn(16), E: r.Range(1, 99)}
 		s.Steps = append(s.Steps, st)
 	}
 }
